@@ -13,6 +13,7 @@ not allow the step in its state (the harness only emits steps it saw the real co
   trunc <forced> <m:match,…>                 deleteEntryLog on the leader
   truncsize <n>
   kill <n> | restart <n> | lead <l>
+  restartlate <n> | replaylate <n>           restart with the replayed entries applied later
   metadown <n> | metaup <n> | elect | setmaster <m>
   flushprobe                                 where the flush gives the raft snapshot signal (regenerated fact)
   digest                                     the whole state, canonical
@@ -125,6 +126,8 @@ def stepLine (s : Option State) (line : String) : Option State × String :=
   | ["truncsize", n] => match n.toNat? with | some n => act s (.truncBySize n) | none => bad
   | ["kill", n] => match n.toNat? with | some n => act s (.kill n) | none => bad
   | ["restart", n] => match n.toNat? with | some n => act s (.restart n) | none => bad
+  | ["restartlate", n] => match n.toNat? with | some n => act s (.restartLate n) | none => bad
+  | ["replaylate", n] => match n.toNat? with | some n => act s (.replayLate n) | none => bad
   | ["lead", n] => match n.toNat? with | some n => act s (.raftLead n) | none => bad
   | ["metadown", n] => match n.toNat? with | some n => act s (.metaDown n) | none => bad
   | ["metaup", n] => match n.toNat? with | some n => act s (.metaUp n) | none => bad
